@@ -497,10 +497,12 @@ func (s *StateDB) BeginPrecompileCall() (sdk.Context, error) {
 		multiStore: cms.Copy(),
 		events:     append(sdk.Events{}, s.ctx.EventManager().Events()...),
 		transient:  make(map[common.Address]Storage, len(s.stateObjects)),
+		origin:     make(map[common.Address]Storage, len(s.stateObjects)),
 		balances:   make(map[common.Address]*big.Int, len(s.stateObjects)),
 	}
 	for addr, obj := range s.stateObjects {
 		entry.transient[addr] = obj.transientStorage.Copy()
+		entry.origin[addr] = obj.originStorage.Copy()
 		entry.balances[addr] = new(big.Int).Set(obj.Balance())
 	}
 	s.journal.append(entry)
@@ -522,6 +524,13 @@ func (s *StateDB) revertPrecompileCall(ch precompileCallChange) {
 			obj.transientStorage = t
 		} else {
 			obj.transientStorage = make(Storage)
+		}
+		// slots read from the store since then may have been read from state that no longer
+		// exists (e.g. after the flush had removed a self-destructed account): forget them
+		if o, ok := ch.origin[addr]; ok {
+			obj.originStorage = o
+		} else {
+			obj.originStorage = make(Storage)
 		}
 		if obj.suicided {
 			continue
